@@ -523,6 +523,8 @@ def appendpop_chunk(cases):
             continue
         if form == "dot" and not (mb["dotx"] and ms["dotx"] and mall["dotx"] and base):
             continue
+        if seg[0] == "ANCHOR" and base and base[-1][0] == "COLLECTOR" and seg[1][:1] in ("+", "-", "&"):
+            continue  # "&name" right after a collector: a name starting with an operator character is outside the notation
         t = mb["wd"] if form == "dot" else mb["wf_"]
         # the appended text: the library's own rendering of the segment on its own in the base's notation
         # (what pop() looks for), without the leading separator of forward-slash notation
